@@ -10,9 +10,8 @@ func DepShapes(quick bool) []APoss {
 	quals := []string{"", "any", "amd64", "native"}
 	ops := []string{"<<", "<=", "=", ">=", ">>"}
 	vers := []string{"1", "1:2.0~rc1-3"}
-	if !quick {
-		vers = append(vers, "${binary:Version}")
-	}
+	vers = append(vers, "${binary:Version}")
+	_ = quick
 	archLists := [][]string{nil, {"amd64"}, {"amd64", "linux-any"}, {"kfreebsd-amd64"}, {"linux-any", "kfreebsd-amd64", "any-i386"}}
 	profs := [][][]AStage{nil, {{stg(false, "p")}}, {{stg(true, "p"), stg(false, "q")}}, {{stg(false, "p")}, {stg(true, "q")}}}
 	return PossShapes(names, quals, ops, vers, archLists, profs)
